@@ -70,6 +70,29 @@ func ruleDFIDENT(c *Ctx, r *Report) {
 	if pr == nil || pr.DefF == nil {
 		return
 	}
+	// a store of a whole parser value (`*p = parser{…}`) writes the field too — with the zero value unless the
+	// literal names it
+	for _, f := range c.Funcs {
+		if !inLib(f) {
+			continue
+		}
+		for _, b := range f.Blocks {
+			for _, in := range b.Instrs {
+				st, ok := in.(*ssa.Store)
+				if !ok {
+					continue
+				}
+				pt, isPtr := st.Addr.Type().Underlying().(*types.Pointer)
+				if !isPtr || !types.Identical(pt.Elem(), pr.Type) {
+					continue
+				}
+				if _, fresh := st.Addr.(*ssa.Alloc); fresh && f == pr.Parse {
+					continue
+				}
+				r.bad(rule, fnName(f)+"|whole-parser", c.instrPos(in), fmt.Sprintf("%s overwrites the whole parser value: the default field set by the option is replaced by whatever the new value holds (the empty name, for a literal that does not mention it), so the rest of this Parse call runs without the caller's default field", fnName(f)))
+			}
+		}
+	}
 	n := 0
 	for _, fs := range c.storesToFields(pr.DefF) {
 		n++
@@ -1052,7 +1075,7 @@ func (c *Ctx) derefUses(v ssa.Value, depth int) []ssa.Instruction {
 // kindRestricted: methods of reflect.Value that panic when the value is not of the kind they are defined for.
 var kindRestricted = map[string]bool{"Len": true, "Cap": true, "Index": true, "Int": true, "Uint": true, "Float": true, "Complex": true,
 	"Bool": true, "Bytes": true, "Elem": true, "Field": true, "FieldByName": true, "FieldByIndex": true, "NumField": true, "MapKeys": true,
-	"MapIndex": true, "MapRange": true, "IsNil": true, "Slice": true, "Slice3": true, "Call": true, "NumMethod": false, "Set": true,
+	"MapIndex": true, "Convert": true, "SetFloat": true, "SetBool": true, "SetMapIndex": true, "MapRange": true, "IsNil": true, "Slice": true, "Slice3": true, "Call": true, "NumMethod": false, "Set": true,
 	"SetInt": true, "SetString": true, "SetLen": true, "OverflowInt": true, "OverflowFloat": true, "Pointer": true, "UnsafePointer": true,
 	"Recv": true, "Send": true, "Close": true}
 
@@ -1231,8 +1254,28 @@ func ruleRECONCE(c *Ctx, r *Report) {
 	const rule = "REC-ONCE"
 	r.doc(rule, "in every self-recursive library function, no path makes two recursive calls on the same sub-term: visiting a child twice per level makes the running time exponential in the depth of the tree; likewise the JSON encoder encodes, and every printer reachable from String / GoString prints, each child at most once per path")
 	n := 0
+	// callees through which f re-enters itself (f itself for direct recursion)
+	reenters := func(f *ssa.Function) map[*ssa.Function]bool {
+		out := map[*ssa.Function]bool{}
+		for _, b := range f.Blocks {
+			for _, in := range b.Instrs {
+				if call, ok := in.(ssa.CallInstruction); ok {
+					if g := call.Common().StaticCallee(); g != nil && inLib(g) && !out[g] {
+						if g == f || c.reachFrom([]*ssa.Function{g})[f] {
+							out[g] = true
+						}
+					}
+				}
+			}
+		}
+		return out
+	}
 	for _, f := range c.Funcs {
-		if !inLib(f) || !c.calls(f, f) {
+		if !inLib(f) || len(f.Blocks) == 0 {
+			continue
+		}
+		cyc := reenters(f)
+		if len(cyc) == 0 {
 			continue
 		}
 		paths, complete := c.enumPaths(f, 5000)
@@ -1243,8 +1286,11 @@ func ruleRECONCE(c *Ctx, r *Report) {
 		for _, p := range paths {
 			seen := map[string]int{}
 			for _, pc := range p.Calls {
-				if pc.Call.Call.StaticCallee() == f {
+				if g := pc.Call.Call.StaticCallee(); g != nil && cyc[g] {
 					k := strings.Join(pc.Args, ",") // as the arguments were when the call was met
+					if g != f {
+						k = fnName(g) + "(" + k + ")"
+					}
 					seen[k]++
 					if seen[k] == 2 {
 						bad[k] = c.instrPos(pc.Call)
@@ -1257,7 +1303,7 @@ func ruleRECONCE(c *Ctx, r *Report) {
 			r.ok(rule, fnName(f), c.pos(f.Pos()), "each sub-term visited at most once per path")
 		}
 		for k, pos := range bad {
-			r.bad(rule, fnName(f)+"|"+k, pos, fmt.Sprintf("%s calls itself twice on the same sub-term (%s) on one path: the work doubles at every level, so the running time is exponential in the nesting depth", fnName(f), k))
+			r.bad(rule, fnName(f)+"|"+k, pos, fmt.Sprintf("%s re-enters itself twice on the same sub-term (%s) on one path (directly or through the function named): the work doubles at every level, so the running time is exponential in the nesting depth", fnName(f), k))
 		}
 	}
 	r.floor(rule, "self-recursive functions", n, 2)
@@ -1773,7 +1819,7 @@ func (c *Ctx) callResultMayBeNil(call *ssa.Call, idx int, depth int) string {
 	hasErr := nres >= 2 && isErrorType(g.Signature.Results().At(nres-1).Type())
 	okGuarded := false
 	if at := c.okGuardAt; at != nil && nres >= 2 && idx < nres-1 {
-		if b, isB := g.Signature.Results().At(nres-1).Type().Underlying().(*types.Basic); isB && b.Kind() == types.Bool {
+		if b, isB := g.Signature.Results().At(nres - 1).Type().Underlying().(*types.Basic); isB && b.Kind() == types.Bool {
 			subj := fmt.Sprintf("%s#%d", c.key(call, nil), nres-1)
 			for _, a := range c.domAtoms(at.Block()) {
 				if a.Kind == "bool" && a.Pos && a.Subj == subj {
